@@ -104,6 +104,10 @@ def gen(rng, n):
         if rng.random() < 0.2:
             step['env'] = {}
             step['now'] = [NOW.year, NOW.month, NOW.day, NOW.hour, NOW.minute, NOW.second, 0]
+        if rng.random() < 0.3:
+            # a time zone with daylight saving whose switch (third Sunday of February) lies between most limits and now: deletion dates
+            # are naive local times and the rule is calendar arithmetic on them - an hour that the clocks skipped changes nothing
+            step['env'] = dict(step['env'], TZ=rng.choice(['XST5XDT,M2.3.0,M11.1.0', 'XST-1XDT,M2.3.0/2,M10.5.0/3', 'UTC0']))
         scns.append(lay.scenario([step], extra=nodes + scen.canary()))
         metas.append({'days': days, 'ents': ents, 'orphans': orphans})
     return scns, metas
